@@ -981,5 +981,8 @@ def parse_all(out):
     res = []
     for m in re.finditer(r"\bM_\w+ = (\[[^\]]*\]|nil)", flat):
         body = m.group(1)
-        res.append([] if body in ("nil", "[]") else [int(x) for x in re.findall(r"\d+", body)])
+        idx = [] if body in ("nil", "[]") else [int(x) for x in re.findall(r"\d+", body)]
+        if body not in ("nil", "[]") and not idx:
+            return None      # non-empty list text that does not parse: evaluation failure, never a vacuous pass
+        res.append(idx)
     return res
